@@ -106,23 +106,20 @@ Fixpoint str_eqb (a b : str) : bool :=
 (* checkMem, _ := strconv.ParseBool(withMemory): errors are ignored, the value is then false *)
 Definition parse_bool (s : str) : bool := existsb (str_eqb s) s_true.
 
-Definition has_name (o : op) : bool :=
-  match o with
-  | OState | OInfo | OPorts | OLogs | OStop | OStart | ORestart | OScale => true
-  | _ => false
-  end.
-Definition has_p1 (o : op) : bool := match o with OLogs | OScale => true | _ => false end.
-Definition has_p2 (o : op) : bool := match o with OLogs => true | _ => false end.
 Definition nonempty_param (p : numparam) : bool := match p with PEmpty => false | _ => true end.
 Definition slash : N := 47.
-Definition name_routable (n : str) : bool :=
-  match n with [] => false | _ => negb (existsb (N.eqb slash) n) end.
+Definition no_slash (n : str) : bool := negb (existsb (N.eqb slash) n).
+Definition name_routable (n : str) : bool := match n with [] => false | _ => no_slash n end.
 
-(* gin matches the route only when every path parameter is a non-empty segment *)
+(* gin matches a route when every path parameter is one segment (no '/'); the LAST parameter must be
+   non-empty (an empty one in the middle is matched and reaches the handler as "") *)
 Definition routed (q : request) : bool :=
-  (negb (has_name (r_op q)) || name_routable (r_name q)) &&
-  (negb (has_p1 (r_op q)) || nonempty_param (r_p1 q)) &&
-  (negb (has_p2 (r_op q)) || nonempty_param (r_p2 q)).
+  match r_op q with
+  | OState | OInfo | OPorts | OStop | OStart | ORestart => name_routable (r_name q)
+  | OLogs => no_slash (r_name q) && nonempty_param (r_p2 q)
+  | OScale => no_slash (r_name q) && nonempty_param (r_p1 q)
+  | _ => true
+  end.
 
 Inductive parsed := PReject | PStatic | PCall (k : call).
 
